@@ -5,6 +5,33 @@ ROOT = os.path.dirname(os.path.dirname(os.path.abspath(__file__)))
 
 # id -> (level category, technique, level text, level note, design ref)
 BUILT = {
+ "C03": ("fault_enumeration", "proptest histories over the Wal API vs a model log + file-level fault enumeration (cut / flip / zero-fill / zero-extend), recovery compared page by page",
+         "Generated write/batch/sync/rotate/truncate/checkpoint/reopen-append histories on a 4..8-page space; every resulting segment file is then cut at frame boundaries +-1, header ends +-1 and interior offsets, byte-flipped and zero-filled; Wal::recover / recover_for_file / replay_segments_to_storage / read_page must yield exactly the longest intact frame prefix in write order.",
+         "Faults are applied after the history (the property's quantifier); the expected prefix is computed from the model log and the documented frame layout, not through TurDB.", "4 C03"),
+ "C28": ("exploration", "proptest operation sequences vs std BTreeMap (model-based), forward/reverse/seek scans, re-instantiation from persisted root and hint, BTreeReader over an mmap copy",
+         "Generated insert / insert_if_not_exists / insert_append / update / delete / lookup / cursor sequences over seven adversarial key shapes (shared prefixes, 500-2000-byte keys, bands) with values up to 3000 bytes; every return value and every scan is compared with an ordered-map model after every step.",
+         "Cells are limited to 4 KiB (what the SQL layer produces given the TOAST threshold); insert_append only with keys above the maximum, as its contract requires.", "4 C28"),
+ "C29": ("exploration", "proptest operation sequences + structural page walker after every mutating step (invariant over the history)",
+         "Same sequences as C28; after each mutation a walker independent of the tree's search code checks page types, slot/cell areas (inside the page, disjoint), slot prefixes, strictly increasing keys, separator bounds, equal leaf depth, leaf chain = in-order leaves, no page reachable twice.",
+         "The walker reads raw page bytes through the public page/leaf/interior accessors; empty leaves are legal as the module documentation says.", "4 C29"),
+ "C04": ("exploration", "proptest SQL histories with lifecycle operations; metamorphic oracle (observation before == after) + model for later statements",
+         "Generated DDL+DML histories with checkpoint(), PRAGMA wal_checkpoint, close+open and drop+open at random positions, WAL on/off; the full observation of every table (rows, COUNT(*), index probes) must be identical across each lifecycle operation and later writes must be accepted/rejected (incl. AUTO_INCREMENT values) as on a never-reopened database.",
+         "Generator features named by open findings (C04 and the shared DML findings of C05) are switched off; counts are in the evidence.", "4 C04"),
+ "C06": ("exploration", "proptest SQL histories; metamorphic oracle: a statement that returns Err leaves the full observation unchanged",
+         "Generated histories in which duplicate keys, NULLs into NOT NULL columns and multi-row statements failing at a later row are frequent; whenever execute returns Err the observation (rows, COUNT(*), index probes of every table) after it must equal the one before it.",
+         "AUTO_INCREMENT counters are not part of the compared state. The one listed finding (multi-row INSERT failing at row k>=2) is excluded from generation and shown by its witness.", "4 C06"),
+ "C07": ("exploration", "proptest transaction histories; metamorphic oracle (observation at BEGIN/SAVEPOINT == after ROLLBACK/ROLLBACK TO) + model for later writes",
+         "Generated BEGIN/COMMIT/ROLLBACK/SAVEPOINT/RELEASE/ROLLBACK TO histories incl. dropping the handle inside a transaction, on tables with INT, TEXT or no primary key, indexed and unindexed; state after rollback must equal the saved state, and later inserts/updates must be accepted or rejected as the relational model says.",
+         "Rollbacks of transactions that deleted or updated rows are listed findings and excluded from generation (witnessed), which leaves insert-only and empty rollbacks, savepoint bookkeeping and commits in the generated search.", "4 C07"),
+ "C33": ("exploration", "proptest row sequences through RowSerde (one buffer), PartitionSpiller (memory / spilled / appended) and the subquery SpillableBuffer",
+         "Generated sequences of 1..12 rows of 0..64 columns over every Value / OwnedValue variant; rows must decode in order with equal values and types, offsets must equal the running row_size sum and end at the buffer end; one case in ten also pushes the rows through the two file-backed spill paths with budgets that force and avoid spilling.",
+         "Any NaN read back for a NaN is accepted (single NAN discriminant is documented). File-backed paths run on 10% of the cases for cost.", "4 C33"),
+ "C32": ("exploration", "proptest JSON ASTs rendered to text vs serde_json (independent oracle) and vs the AST through JSONB lookups",
+         "Generated documents to depth 8 (duplicate/unsorted/empty/Unicode keys, every escape form incl. surrogate pairs, numbers with sign/fraction/exponent, strings at the 65535-byte field limit) are parsed, encoded to JSONB (parser and JsonbBuilder), and compared value by value: as_value, get per key, array_get per index, iterators, absent keys, get_path == stepwise get, OwnedValue wrappers, and to_json_string re-parsed by serde_json.",
+         "Nested strings/keys over 65535 bytes are gated (open finding). Nesting is bounded at 8 (unbounded recursion belongs to C22). Duplicate keys: any written value is accepted.", "4 C32"),
+ "C31": ("exploration", "proptest schemas x rows through the record format (round trip by typed setters/getters and by the OwnedValue glue; reset-vs-fresh byte equality)",
+         "Generated schemas of 1..64 columns over all 32 DataTypes with two rows each (NULLs, type limits, empty strings, rows whose variable data reaches the u16 offset limit); every value is written with its typed RecordBuilder setter and read with the typed RecordView getter, the same rows go through build_record_from_values / _with_builder / _into_buffer and extract_row_from_record, and a builder reused after reset() or via RecordBuilderState must produce the bytes of a fresh builder.",
+         "OwnedValue has no range variant, so range columns are non-NULL only in the typed path; rows over 65535 bytes of variable data may be refused. 17-byte blobs starting with 0xFE are gated (open finding).", "4 C31"),
  "C05": ("exploration", "proptest stateful SQL histories vs a relational reference model (results + full observation after every statement)",
          "Generated schemas and INSERT/UPDATE/DELETE/TRUNCATE histories; after every statement the affected-row count, RETURNING rows, SELECT * multiset, COUNT(*) and index probes are compared with an in-harness relational model; listed findings are excluded from generation by their trigger tags (gates) and demonstrated by witness replays.",
          "The model implements the unambiguous core of SQL DML (3-valued WHERE, end-of-statement constraint checking; statements whose verdict depends on checking order are not generated). Generator features named by open findings are switched off; their count is in the evidence.", "4 C05"),
